@@ -2,6 +2,8 @@
 """C02 SMILES write then read is lossless -- code-book, field coverage and mark-parity clauses."""
 from ..r_codebooks import rule_smiles_codebooks, rule_mark_parity, rule_field_coverage
 from ..r_stereo import rule_tetrahedron_table, rule_alkene_table, rule_ladders
+from ..r_codebooks import rule_closure_slots as _rule_closure_slots
+from ..r_construct import rule_seeded_string_complete as _rule_seeded
 
 LEVEL = 'other'
 
@@ -16,3 +18,5 @@ def run(ck, repo):
     rule_tetrahedron_table(ck, repo)
     table = rule_alkene_table(ck, repo)
     rule_ladders(ck, repo, table)
+    _rule_closure_slots(ck, repo, 'C02.D2-closure-slots')
+    _rule_seeded(ck, repo, 'C02.D2-seeded-string')
